@@ -12,11 +12,16 @@
 (*     whose enqueue() returns true must wake the consumer (flag `wake` =  *)
 (*     the eventfd); the consumer loops try_mark_inactive_or_dequeue_all() *)
 (*     ("consume") or dequeue_all()+try_mark_inactive() ("consume2") and   *)
-(*     sleeps when it has marked the queue inactive.                       *)
+(*     sleeps when it has marked the queue inactive.  "consume3" is the    *)
+(*     IOCP context's flavour: dequeue_all_reversed() (LIFO batch) +       *)
+(*     try_mark_inactive(), and on exit try_mark_active() so that the next *)
+(*     run() finds the queue active.                                       *)
 (*  mode "aq2" (v1 async_mutex style): every thread calls                  *)
 (*     enqueue_or_mark_active(item); the thread that found the queue       *)
 (*     inactive becomes the consumer, processes its own item and then      *)
 (*     everything it dequeues until it manages to mark the queue inactive. *)
+(*     <<"trylock",0>> is v1 async_mutex::try_lock(): try_mark_active();   *)
+(*     on success the thread is the consumer without an item of its own.   *)
 (*                                                                         *)
 (* head_ is modelled by (inactive, stk): the sentinel or the LIFO chain,   *)
 (* newest first.  A CAS compares the pointer value = Top.  pc values are   *)
@@ -27,10 +32,10 @@ CONSTANTS Threads, Items, Scenarios
 VARIABLES scn, pc, ip, old,          \* per thread: control state and the loaded snapshot (pointer value)
           inactive, stk,              \* head_
           wake,                       \* harness: consumer must be woken
-          accBegun, accEnded, before, ranSeq, runners, told, marks, multiRunner,
+          accBegun, accEnded, before, ranSeq, runners, told, marks, acts, multiRunner,
           lastT, lastPc
-vars == <<scn, pc, ip, old, inactive, stk, wake, accBegun, accEnded, before, ranSeq, runners, told, marks, multiRunner, lastT, lastPc>>
-View == <<scn, pc, ip, old, inactive, stk, wake, accBegun, accEnded, before, ranSeq, runners, told, marks, multiRunner>>
+vars == <<scn, pc, ip, old, inactive, stk, wake, accBegun, accEnded, before, ranSeq, runners, told, marks, acts, multiRunner, lastT, lastPc>>
+View == <<scn, pc, ip, old, inactive, stk, wake, accBegun, accEnded, before, ranSeq, runners, told, marks, acts, multiRunner>>
 INACT == 99
 Top == IF inactive THEN INACT ELSE IF stk = <<>> THEN 0 ELSE Head(stk)
 RECURSIVE Rev(_)
@@ -45,13 +50,17 @@ Init == /\ scn \in Scenarios
         /\ ip = [t \in Threads |-> 1] /\ old = [t \in Threads |-> 0]
         /\ inactive = (scn.ctx = "aq2") /\ stk = <<>> /\ wake = FALSE
         /\ accBegun = {} /\ accEnded = {} /\ before = [i \in Items |-> {}] /\ ranSeq = <<>>
-        /\ runners = {} /\ told = 0 /\ marks = 0 /\ multiRunner = FALSE
+        /\ runners = {} /\ told = 0 /\ marks = 0 /\ acts = 0 /\ multiRunner = FALSE
         /\ lastT = 0 /\ lastPc = ""
 Label(t) == lastT' = t /\ lastPc' = pc[t]
 NextPc(t) == IF ip[t] + 1 <= Len(Prog(t)) THEN "op" ELSE "done"
 Advance(t) == pc' = [pc EXCEPT ![t] = NextPc(t)] /\ ip' = [ip EXCEPT ![t] = ip[t] + 1]
 RunItems(t, s) == ranSeq' = ranSeq \o [k \in 1..Len(s) |-> <<s[k], t>>]
-H == <<accBegun, accEnded, before, ranSeq, runners, told, marks, multiRunner>>
+\* where the consumer loop of thread t starts over
+Again(t) == IF Mode2 \/ Op(t)[1] = "consume" THEN "t_load" ELSE IF Op(t)[1] = "consume3" THEN "r_load" ELSE "d_load"
+\* where it continues when try_mark_inactive() returned false
+NotMarked(t) == IF Mode2 \/ Op(t)[1] = "consume" THEN "t_xchg" ELSE Again(t)
+H == <<accBegun, accEnded, before, ranSeq, runners, told, marks, acts, multiRunner>>
 
 \* ---- operation fetch (harness yield in front of each program operation)
 Fetch(t) ==
@@ -61,11 +70,13 @@ Fetch(t) ==
           /\ before' = [before EXCEPT ![Op(t)[2]] = accEnded]
           /\ pc' = [pc EXCEPT ![t] = IF Mode2 THEN "m_load" ELSE "e_load"]
           /\ UNCHANGED runners
-     ELSE /\ runners' = runners \cup {t}                                    \* "consume" / "consume2"
-          /\ pc' = [pc EXCEPT ![t] = IF Op(t)[1] = "consume" THEN "t_load" ELSE "d_load"]
-          /\ UNCHANGED <<accBegun, before>>
+     ELSE IF Op(t)[1] = "trylock"
+          THEN /\ pc' = [pc EXCEPT ![t] = "a_cas"] /\ UNCHANGED <<accBegun, before, runners>>
+          ELSE /\ runners' = runners \cup {t}                               \* "consume" / "consume2" / "consume3"
+               /\ pc' = [pc EXCEPT ![t] = Again(t)]
+               /\ UNCHANGED <<accBegun, before>>
   /\ Label(t)
-  /\ UNCHANGED <<scn, ip, old, inactive, stk, wake, accEnded, ranSeq, told, marks, multiRunner>>
+  /\ UNCHANGED <<scn, ip, old, inactive, stk, wake, accEnded, ranSeq, told, marks, acts, multiRunner>>
 
 \* ---- enqueue(item): load; do { item->next = old==inactive ? null : old } while (!CAS(old, item)); return old==inactive
 ELoad(t) == /\ pc[t] \in {"e_load", "m_load"}
@@ -83,7 +94,7 @@ ECas(t) == /\ pc[t] = "e_cas"
                    /\ UNCHANGED old
               ELSE /\ old' = [old EXCEPT ![t] = Top]                   \* CAS failure reloads
                    /\ UNCHANGED <<stk, inactive, told, wake, accEnded, pc, ip>>
-           /\ Label(t) /\ UNCHANGED <<scn, accBegun, before, ranSeq, runners, marks, multiRunner>>
+           /\ Label(t) /\ UNCHANGED <<scn, accBegun, before, ranSeq, runners, marks, acts, multiRunner>>
 
 \* ---- enqueue_or_mark_active(item): if inactive then CAS(inactive -> nullptr), return false, else push, return true
 MCas(t) == /\ pc[t] = "m_cas"
@@ -102,7 +113,7 @@ MCas(t) == /\ pc[t] = "m_cas"
                         /\ UNCHANGED <<old, ranSeq, runners, multiRunner>>
               ELSE /\ old' = [old EXCEPT ![t] = Top]
                    /\ UNCHANGED <<stk, inactive, accEnded, pc, ip, ranSeq, runners, multiRunner>>
-           /\ Label(t) /\ UNCHANGED <<scn, wake, accBegun, before, told, marks>>
+           /\ Label(t) /\ UNCHANGED <<scn, wake, accBegun, before, told, marks, acts>>
 
 \* ---- consumer side.  After a successful "mark inactive":
 \*   aq  : finished if every item has run, otherwise sleep until woken
@@ -110,42 +121,57 @@ MCas(t) == /\ pc[t] = "m_cas"
 AfterMark(t) ==
   /\ marks' = marks + 1
   /\ IF Mode2
-     THEN /\ runners' = runners \ {t} /\ accEnded' = accEnded \cup {Op(t)[2]} /\ Advance(t) /\ UNCHANGED wake
+     THEN /\ runners' = runners \ {t} /\ Advance(t) /\ UNCHANGED wake
+          /\ accEnded' = IF Op(t)[1] = "start" THEN accEnded \cup {Op(t)[2]} ELSE accEnded
      ELSE /\ UNCHANGED accEnded
           /\ IF Cardinality(RanSet) >= scn.items
-             THEN runners' = runners \ {t} /\ Advance(t) /\ UNCHANGED wake
+             THEN IF Op(t)[1] = "consume3"
+                  THEN pc' = [pc EXCEPT ![t] = "a_cas"] /\ UNCHANGED <<runners, ip, wake>>    \* leave the queue active
+                  ELSE runners' = runners \ {t} /\ Advance(t) /\ UNCHANGED wake
              ELSE /\ UNCHANGED <<runners, ip>>
-                  /\ IF wake THEN wake' = FALSE /\ pc' = [pc EXCEPT ![t] = IF Op(t)[1] = "consume" THEN "t_load" ELSE "d_load"]
+                  /\ IF wake THEN wake' = FALSE /\ pc' = [pc EXCEPT ![t] = Again(t)]
                              ELSE UNCHANGED wake /\ pc' = [pc EXCEPT ![t] = "sleep"]
-Again(t) == IF Mode2 \/ Op(t)[1] = "consume" THEN "t_load" ELSE "d_load"
 \* try_mark_inactive(): load; if nullptr then CAS(nullptr -> inactive)
 TLoad(t) == /\ pc[t] = "t_load"
             /\ old' = [old EXCEPT ![t] = Top]
-            /\ pc' = [pc EXCEPT ![t] = IF Top = 0 THEN "t_cas"
-                                       ELSE IF Mode2 \/ Op(t)[1] = "consume" THEN "t_xchg" ELSE "d_load"]
+            /\ pc' = [pc EXCEPT ![t] = IF Top = 0 THEN "t_cas" ELSE NotMarked(t)]
             /\ Label(t) /\ UNCHANGED <<scn, ip, inactive, stk, wake>> /\ UNCHANGED H
 TCas(t) == /\ pc[t] = "t_cas"
            /\ IF Top = 0
               THEN /\ inactive' = TRUE /\ AfterMark(t) /\ UNCHANGED stk
-              ELSE /\ pc' = [pc EXCEPT ![t] = IF Mode2 \/ Op(t)[1] = "consume" THEN "t_xchg" ELSE "d_load"]
+              ELSE /\ pc' = [pc EXCEPT ![t] = NotMarked(t)]
                    /\ UNCHANGED <<inactive, stk, wake, ip, marks, runners, accEnded>>
-           /\ Label(t) /\ UNCHANGED <<scn, old, accBegun, before, ranSeq, told, multiRunner>>
+           /\ Label(t) /\ UNCHANGED <<scn, old, accBegun, before, ranSeq, told, acts, multiRunner>>
 \* exchange(nullptr): take everything, reverse, run it
-Xchg(t) == /\ pc[t] \in {"t_xchg", "d_xchg"}
+Xchg(t) == /\ pc[t] \in {"t_xchg", "d_xchg", "r_xchg"}
            /\ stk' = <<>> /\ inactive' = FALSE
-           /\ RunItems(t, Rev(stk))
+           /\ RunItems(t, IF pc[t] = "r_xchg" THEN stk ELSE Rev(stk))      \* dequeue_all_reversed: newest first
            /\ pc' = [pc EXCEPT ![t] = Again(t)]
-           /\ Label(t) /\ UNCHANGED <<scn, ip, old, wake, accBegun, accEnded, before, runners, told, marks, multiRunner>>
+           /\ Label(t) /\ UNCHANGED <<scn, ip, old, wake, accBegun, accEnded, before, runners, told, marks, acts, multiRunner>>
 \* dequeue_all(): load; if nullptr return {} (then try_mark_inactive()), else exchange
-DLoad(t) == /\ pc[t] = "d_load"
+DLoad(t) == /\ pc[t] \in {"d_load", "r_load"}
             /\ old' = [old EXCEPT ![t] = Top]
-            /\ pc' = [pc EXCEPT ![t] = IF Top = 0 THEN "t_load" ELSE "d_xchg"]
+            /\ pc' = [pc EXCEPT ![t] = IF Top = 0 THEN "t_load" ELSE IF pc[t] = "d_load" THEN "d_xchg" ELSE "r_xchg"]
             /\ Label(t) /\ UNCHANGED <<scn, ip, inactive, stk, wake>> /\ UNCHANGED H
 Sleep(t) == /\ pc[t] = "sleep" /\ wake
             /\ wake' = FALSE /\ pc' = [pc EXCEPT ![t] = Again(t)]
             /\ Label(t) /\ UNCHANGED <<scn, ip, old, inactive, stk>> /\ UNCHANGED H
 
-Step(t) == Fetch(t) \/ ELoad(t) \/ ECas(t) \/ MCas(t) \/ TLoad(t) \/ TCas(t) \/ Xchg(t) \/ DLoad(t) \/ Sleep(t)
+\* try_mark_active(): CAS(inactive -> nullptr)
+\*   aq  ("consume3" on exit): leaves the queue active; aq2 ("trylock"): on success t is the consumer (lock holder)
+ACas(t) == /\ pc[t] = "a_cas"
+           /\ IF inactive
+              THEN /\ inactive' = FALSE /\ acts' = acts + 1
+                   /\ IF Mode2
+                      THEN /\ multiRunner' = (multiRunner \/ runners # {}) /\ runners' = runners \cup {t}
+                           /\ pc' = [pc EXCEPT ![t] = "t_load"] /\ UNCHANGED ip
+                      ELSE /\ runners' = runners \ {t} /\ Advance(t) /\ UNCHANGED multiRunner
+              ELSE /\ UNCHANGED <<inactive, acts, multiRunner>>
+                   /\ runners' = IF Mode2 THEN runners ELSE runners \ {t}
+                   /\ Advance(t)
+           /\ Label(t) /\ UNCHANGED <<scn, old, stk, wake, accBegun, accEnded, before, ranSeq, told, marks>>
+
+Step(t) == ACas(t) \/ Fetch(t) \/ ELoad(t) \/ ECas(t) \/ MCas(t) \/ TLoad(t) \/ TCas(t) \/ Xchg(t) \/ DLoad(t) \/ Sleep(t)
 AllDone == \A t \in Threads : pc[t] = "done"
 Finished == AllDone /\ lastT' = 0 /\ lastPc' = "" /\ UNCHANGED View
 Next == (\E t \in Threads : Step(t)) \/ Finished
@@ -156,10 +182,11 @@ FairSpec == Spec /\ \A t \in Threads : WF_vars(Step(t))
 RanAtMostOnce == \A a, b \in 1..Len(ranSeq) : a # b => ranSeq[a][1] # ranSeq[b][1]
 NothingLost == AllDone => RanSet = {i \in Items : i <= scn.items}
 \* every inactive period is ended by exactly one enqueue() that returns true
-ExactlyOneProducerToldInactive == ~Mode2 => told + (IF inactive THEN 1 ELSE 0) = marks
+ExactlyOneProducerToldInactive == ~Mode2 => told + acts + (IF inactive THEN 1 ELSE 0) = marks
 NoLostWakeup == ~Mode2 => /\ wake => ~inactive
                           /\ \A t \in Threads : (pc[t] = "sleep" /\ ~wake) => inactive
 ConsumerExclusive == Mode2 => (~multiRunner /\ Cardinality(runners) <= 1 /\ (inactive <=> runners = {}))
-Fifo == \A k \in 1..Len(ranSeq) : \A j \in before[ranSeq[k][1]] : \E m \in 1..(k - 1) : ranSeq[m][1] = j
+HasRev == \E t \in Threads : \E k \in 1..Len(Prog(t)) : Prog(t)[k][1] = "consume3"
+Fifo == HasRev \/ \A k \in 1..Len(ranSeq) : \A j \in before[ranSeq[k][1]] : \E m \in 1..(k - 1) : ranSeq[m][1] = j
 Terminates == <>AllDone
 =============================================================================
